@@ -5,7 +5,9 @@ the geometry-guided generators.  Nothing here imports pydl.
 Separation formula: chord of the two unit vectors, sep = 2*asin(|a-b|/2) (|a+b| branch past
 90 deg) evaluated in x87 long double (eps 1.1e-19).  Absolute error of a separation is a few
 1e-19 rad (~1e-17 deg), i.e. >= 5 orders below the ambiguity band used by the checks.
-A second formula (Vincenty atan2(|a x b|, a.b)) is provided for the self check of the reference.
+A second formula (Vincenty atan2(|a x b|, a.b)) cross-checks the first on every call made by the checks
+(checked_sep_matrix): a disagreement above 1e-14 deg raises ReferenceSelfCheckError, which the harness reports as a
+harness error (INCONCLUSIVE), never as a violation.
 """
 import numpy as np
 
@@ -54,6 +56,24 @@ def sep_matrix_vincenty(ra1, dec1, ra2, dec2):
     return np.arctan2(np.sqrt((cr * cr).sum(-1)), (a * b).sum(-1)) * R2D
 
 
+class ReferenceSelfCheckError(RuntimeError):
+    """the two independent long-double formulas disagree: the reference is not trustworthy (never a verdict on pydl)"""
+
+
+SELFCHECK_TOL = 1e-14     # degrees; the two formulas agree to ~1e-17 deg with x87 long double
+
+
+def checked_sep_matrix(ra1, dec1, ra2, dec2):
+    """sep_matrix, cross-checked against the Vincenty form on every call (raises ReferenceSelfCheckError)."""
+    if not (np.finfo(LD).eps < 1e-18):
+        raise ReferenceSelfCheckError('numpy long double is not extended precision on this platform')
+    S = sep_matrix(ra1, dec1, ra2, dec2)
+    V = sep_matrix_vincenty(ra1, dec1, ra2, dec2)
+    if S.size and not (float(np.abs(S - V).max()) <= SELFCHECK_TOL):
+        raise ReferenceSelfCheckError('chord and Vincenty separations differ by %g deg' % float(np.abs(S - V).max()))
+    return S
+
+
 def classify(S, length):
     """(sure, maybe): boolean matrices, S < length-band and S <= length+band."""
     w = LD(band(length))
@@ -92,7 +112,7 @@ def components(adj):
 
 def fof(ra, dec, length):
     """(labels_sure, labels_maybe, n_band_pairs, S): both readings of the ambiguity band."""
-    S = sep_matrix(ra, dec, ra, dec)
+    S = checked_sep_matrix(ra, dec, ra, dec)
     sure, maybe = classify(S, length)
     # spheregroup links with sep <= L: 'sure' = S < L - band, 'maybe' = S <= L + band
     l1 = components(sure)
